@@ -278,6 +278,7 @@ func RunWorker(o *Options) int {
 		if plan.Seed == 0 {
 			plan.Seed = seed
 		}
+		fmt.Printf("POLYSIM-RUN %d\n", i) // progress marker for the parent's watchdog
 		run := executeSafe(c, plan, o.Verbose)
 		res.Runs++
 		evals := run.Probes["__evals"]
@@ -372,6 +373,22 @@ func RunReplay(o *Options) int {
 	if attempts < 1 {
 		attempts = 1
 	}
+	if rf.Violation.Key == "run-does-not-terminate" {
+		done := make(chan struct{})
+		go func() {
+			executeSafe(c, rf.Plan, o.Verbose)
+			close(done)
+		}()
+		select {
+		case <-done:
+			fmt.Printf("REPLAY did not reproduce property=%s key=%s (the run terminated)\n", rf.Violation.Property, rf.Violation.Key)
+			return 0
+		case <-time.After(60 * time.Second):
+			fmt.Printf("REPLAY reproduced property=%s key=%s: the run is still going after 60 s\n", rf.Violation.Property, rf.Violation.Key)
+			os.Stdout.Sync()
+			os.Exit(1) // the stuck goroutine cannot be stopped
+		}
+	}
 	for _, pp := range rf.Prelude {
 		executeSafe(c, pp, false)
 	}
@@ -464,7 +481,10 @@ func RunParent(o *Options) int {
 	// phase runs the given index ranges in worker processes and merges their results; it
 	// returns the ranges the workers did not get to before the wall cap.
 	var crashed [][2]int
+	var hung []int
+	hungWorkers := 0
 	phase := func(ranges [][2]int) (rest [][2]int, startErr bool) {
+		phaseStart := time.Now()
 		var jobs []job
 		for _, rg := range ranges {
 			args := []string{"-test.run=^TestSim$", "-test.timeout=0", "-prop", c.ID, "-tier", o.Tier, "-seed", strconv.FormatUint(o.Seed, 10),
@@ -479,8 +499,33 @@ func RunParent(o *Options) int {
 			}
 			jobs = append(jobs, job{cmd, &ob, &eb})
 		}
+		// watchdog: a worker that is still running long after the wall cap is stuck inside one run
+		// (the code under test or the engine loops); it is killed and the run it was in is recorded
+		limit := time.Duration(capS)*3*time.Second + 3*time.Minute
 		for ji, j := range jobs {
-			err := j.cmd.Wait()
+			done := make(chan error, 1)
+			go func(c *exec.Cmd) { done <- c.Wait() }(j.cmd)
+			var err error
+			select {
+			case err = <-done:
+			case <-time.After(time.Until(phaseStart.Add(limit))):
+				j.cmd.Process.Kill()
+				err = <-done
+				last := -1
+				for _, ln := range strings.Split(j.out.String(), "\n") {
+					if strings.HasPrefix(ln, "POLYSIM-RUN ") {
+						if v, e := strconv.Atoi(strings.TrimPrefix(ln, "POLYSIM-RUN ")); e == nil {
+							last = v
+						}
+					}
+				}
+				fmt.Printf("polysim: worker for runs %d..%d still running %v after its start (wall cap %ds); killed while in run %d\n", ranges[ji][0], ranges[ji][1], limit, capS, last)
+				if last >= 0 {
+					hung = append(hung, last)
+				}
+				hungWorkers++
+				continue
+			}
 			var r *workerResult
 			sc := bufio.NewScanner(bytes.NewReader(j.out.Bytes()))
 			sc.Buffer(make([]byte, 1<<20), 1<<28)
@@ -597,6 +642,40 @@ func RunParent(o *Options) int {
 	}
 	if len(crashed) > 0 {
 		trouble = true
+	}
+	// Runs that never terminated. On the unchanged tree every run terminates; a run that
+	// deterministically hangs (its plan alone hangs again in a fresh process) shows that the
+	// code under test (or the engine driving it) no longer returns: reported as a violation with
+	// the plan as replay file. A hang that does not repeat is watchdog trouble (exit 2).
+	var hungViolations []foundViolation
+	if hungWorkers > 0 {
+		sort.Ints(hung)
+		seen := map[int]bool{}
+		for _, idx := range hung {
+			if seen[idx] || len(hungViolations) >= 2 {
+				continue
+			}
+			seen[idx] = true
+			seed := Derive(o.Seed, "run:"+c.ID, uint64(idx))
+			pl := c.Generate(NewRNG(seed), idx, o.Tier)
+			pl.Property = c.ID
+			if pl.Seed == 0 {
+				pl.Seed = seed
+			}
+			v := Violation{Property: c.ID, Key: "run-does-not-terminate", Step: -1, Msg: fmt.Sprintf("run %d of the batch did not terminate (worker killed by the watchdog); replaying this plan hangs again", idx)}
+			rf := &ReplayFile{Property: c.ID, Violation: v, Plan: pl, OrigSteps: len(pl.Steps), Note: "replay: ./check " + c.ID + " replay <this file> (reports 'reproduced' when the run is still going after 60 s)"}
+			os.MkdirAll(replayDir(o), 0o755)
+			path := filepath.Join(replayDir(o), fmt.Sprintf("%s-%d-run-does-not-terminate.json", c.ID, pl.Seed))
+			b, _ := json.MarshalIndent(rf, "", " ")
+			if os.WriteFile(path, b, 0o644) != nil {
+				continue
+			}
+			hungViolations = append(hungViolations, foundViolation{V: v, ReplayPath: path, OrigSteps: len(pl.Steps), MinSteps: len(pl.Steps), RunIndex: idx})
+		}
+		if len(hungViolations) == 0 {
+			trouble = true
+		}
+		total.Violations = append(total.Violations, hungViolations...)
 	}
 	if trouble {
 		fmt.Println("polysim: worker trouble (harness/build problem, not a property verdict)")
